@@ -95,6 +95,12 @@ func (m *Machine) mapAssign(mv Value, key Value) Ptr {
 	}
 	i := m.mapFind(d, key)
 	if i >= 0 {
+		// like the runtime: for key types whose equal values can differ in
+		// representation (strings, floats, interfaces) the stored key is
+		// overwritten by the one just used
+		if needKeyUpdate(d.KT) {
+			m.Store(d.KT, Ptr{ID: d.Entries[i].K}, key)
+		}
 		return Ptr{ID: d.Entries[i].V}
 	}
 	d = m.mapData(mv, true)
@@ -216,4 +222,23 @@ func min64(a, b int64) int64 {
 		return a
 	}
 	return b
+}
+
+
+func needKeyUpdate(T types.Type) bool {
+	switch u := T.Underlying().(type) {
+	case *types.Basic:
+		return u.Info()&(types.IsString|types.IsFloat|types.IsComplex) != 0
+	case *types.Interface:
+		return true
+	case *types.Struct:
+		for i := 0; i < u.NumFields(); i++ {
+			if needKeyUpdate(u.Field(i).Type()) {
+				return true
+			}
+		}
+	case *types.Array:
+		return needKeyUpdate(u.Elem())
+	}
+	return false
 }
